@@ -3,6 +3,7 @@ package main
 import (
 	"fmt"
 	"go/token"
+	"regexp"
 	"sort"
 	"strings"
 
@@ -101,7 +102,7 @@ func runP(c *Ctx, rule string, specs []entrySpec, minFuncs, minPCIs int) {
 				c.premiseCheck = func(o *Obligation, premises []string) (bool, string) {
 					return pe.provePremises(cur, premises)
 				}
-				c.Fail(rule, key, posOfInstr(p.ins), p.kind+" site not guarded on every path: "+why, facts...)
+				c.FailVia(rule, key, posOfInstr(p.ins), p.kind+" site not guarded on every path: "+why, pe.callerKeys(p, key), facts...)
 				c.premiseCheck = nil
 			}
 		}
@@ -435,7 +436,13 @@ func configureInterpP(c *Ctx) *PEngine {
 		if class != "thread.tx" && class != "thread.prevOutput" {
 			return false
 		}
-		return fn.Signature.Recv() == nil && g.handlers[fn.Name()] && pkgPathOf(fn) == modPath+"/bscript/interpreter"
+		// a helper extracted from gated handlers (outside the baseline list) runs only inside them
+		for _, af := range attributedTo(c.P, fn) {
+			if !(af.Signature.Recv() == nil && g.handlers[af.Name()] && pkgPathOf(af) == modPath+"/bscript/interpreter") {
+				return false
+			}
+		}
+		return true
 	}
 	return pe
 }
@@ -554,10 +561,53 @@ func ruleConv(c *Ctx) {
 				if len(facts) > 8 {
 					facts = facts[:8]
 				}
-				c.Fail("CONV", p.key, posOfInstr(p.ins), "integer conversion may change the value (wrap/truncate): "+why, facts...)
+				c.FailVia("CONV", p.key, posOfInstr(p.ins), "integer conversion may change the value (wrap/truncate): "+why, pe.callerKeys(p, p.key), facts...)
 			}
 		}
 	}
 	c.Covered["CONV:conversions_needing_proof"] = n
 	c.MinInstances("CONV", n, 8)
+}
+
+// callerKeys: for a site in a function outside the baseline list, its key rewritten into each
+// module caller: the function name replaced and every parameter pN replaced by the caller's
+// argument as the engine prints it. Nil when the function is a baseline function, has no module
+// caller, or an argument has no printable form.
+func (pe *PEngine) callerKeys(p *pci, key string) []string {
+	if inlineHelper == nil || !inlineHelper(p.fn) {
+		return nil
+	}
+	node := pe.P.CG().Nodes[p.fn]
+	if node == nil {
+		return nil
+	}
+	var out []string
+	seen := map[string]bool{}
+	for _, e := range node.In {
+		caller := e.Caller.Func
+		if !inScope(pkgPathOf(caller)) || e.Site == nil {
+			continue
+		}
+		cpf := pe.pf(caller)
+		k := strings.Replace(key, "/"+funcName(p.fn)+"/", "/"+funcName(caller)+"/", 1)
+		if k == key {
+			k = strings.Replace(key, funcName(p.fn)+"/", funcName(caller)+"/", 1)
+		}
+		args := e.Site.Common().Args
+		// two-step replacement so that an argument printed as "p1" is not replaced again
+		for i := range p.fn.Params {
+			k = regexp.MustCompile(fmt.Sprintf(`\bp%d\b`, i)).ReplaceAllString(k, fmt.Sprintf("\x00%d\x00", i))
+		}
+		for i := range p.fn.Params {
+			if i >= len(args) {
+				return nil
+			}
+			k = strings.ReplaceAll(k, fmt.Sprintf("\x00%d\x00", i), descVN(cpf.get(args[i]), 0))
+		}
+		if !seen[k] {
+			seen[k] = true
+			out = append(out, k)
+		}
+	}
+	return out
 }
